@@ -88,6 +88,25 @@ func regSingle[T signal.SignalTypes](name string) {
 			*b = saved
 		}
 	})
+	put("appendWithinCapacityPartialFrames", func(c *Case) func() {
+		// dst and src both end in a partial frame; together they fill dst's capacity
+		// exactly (1 + (C*K-1) samples), so the append fits and must stay in place
+		C, K := c.C, c.F+2
+		b := signal.Alloc[T](signal.Allocator{Channels: C, Length: 0, Capacity: K})
+		if c.Window {
+			b = signal.Alloc[T](signal.Allocator{Channels: C, Length: 1, Capacity: K + 1}).Slice(1, 1)
+		}
+		src := signal.Alloc[T](signal.Allocator{Channels: C, Length: 0, Capacity: K})
+		b.AppendSample(1)
+		for i := 0; i < C*K-1; i++ {
+			src.AppendSample(2)
+		}
+		saved := *b
+		return func() {
+			b.Append(src)
+			*b = saved
+		}
+	})
 	put("channelViewGetSet", func(c *Case) func() {
 		b := mkBuf[T](c)
 		ch := c.C - 1
@@ -209,7 +228,7 @@ func init() {
 	regRow[float64]("float64")
 }
 
-var SingleOps = []string{"sampleGetSet", "appendSampleBelowCapacity", "appendSampleAtCapacity", "appendWithinCapacity", "channelViewGetSet", "poolCycle", "sliceEscaping", "sliceLocal"}
+var SingleOps = []string{"sampleGetSet", "appendSampleBelowCapacity", "appendSampleAtCapacity", "appendWithinCapacity", "appendWithinCapacityPartialFrames", "channelViewGetSet", "poolCycle", "sliceEscaping", "sliceLocal"}
 var PairOps = []string{"write", "read", "writeStriped", "readStriped"}
 
 func Check(c *Case) (res kit.Result) {
